@@ -19,13 +19,17 @@ def _eq(ctx, what, got, want, inp):
                  f'{np.asarray(want).shape})', dict(inp, expr=what))
 
 
-def run(ctx, rng, model=None):
-    n_files = 10 if ctx.quick else 120
+def run(ctx, rng, model=None, n_quick=10, n_thorough=120):
+    n_files = n_quick if ctx.quick else n_thorough
     for k in range(n_files):
         n, bs, q = gen.geometry_3d(rng, klass=['default', 'general', 'zslice', None][k % 4], max_voxels=30_000)
         n = tuple(max(v, 3) for v in n)
         il = (int(rng.integers(-20, 50)), int(rng.choice([1, 2, -1, -3])))
         xl = (int(rng.integers(-20, 50)), int(rng.choice([1, 3, -2])))
+        if k % 3 == 1:   # line number 0 on the axis, at any position (first, inside, last)
+            il = (-il[1] * int(rng.integers(0, n[0])), il[1])
+        if k % 3 == 2:
+            xl = (-xl[1] * int(rng.integers(0, n[1])), xl[1])
         z = (int(rng.integers(0, 100)) * 4, int(rng.choice([4000, 2000, 1000])))
         fi = synth.make(ctx.path('em.sgz'), n, bs, q, rng, il=il, xl=xl, z=z)
         V = fi.real()
